@@ -175,3 +175,115 @@ pub fn tracker_ticks(_args: &[String]) -> String {
     }
     format!("{{\"found\": false, \"tried\": {}}}", tried)
 }
+
+/// C15: HumanBytes / BinaryBytes use powers of 1024 (KiB, MiB, ...), DecimalBytes powers of 1000 (kB, MB, ...); below the
+/// first threshold the plain number of bytes; two decimals otherwise.  Values around every threshold of both families.
+pub fn byte_formatters(_args: &[String]) -> String {
+    use indicatif::{BinaryBytes, DecimalBytes, HumanBytes};
+    let mut tried = 0u64;
+    fn model(n: u64, base: f64, prefixes: &[&str]) -> String {
+        let mut v = n as f64;
+        if v < base {
+            return format!("{} B", n);
+        }
+        let mut k = 0usize;
+        while v >= base && k < prefixes.len() {
+            v /= base;
+            k += 1;
+        }
+        format!("{:.2} {}B", v, prefixes[k - 1])
+    }
+    let bin = ["Ki", "Mi", "Gi", "Ti", "Pi", "Ei", "Zi", "Yi"];
+    let dec = ["k", "M", "G", "T", "P", "E", "Z", "Y"];
+    let mut vals: Vec<u64> = vec![0, 1, 9, 10, 99, 100, 512, 999, 1000, 1001, 1010, 1023, 1024, 1025, 1100, 1500, 1536, 2047, 2048, 9999, 10000, 65535, 65536];
+    for e in 1..=6u32 {
+        for base in [1000u64, 1024] {
+            if let Some(p) = base.checked_pow(e) {
+                for d in [p.wrapping_sub(1), p, p.wrapping_add(1), p / 2 * 3] { vals.push(d); }
+            }
+        }
+    }
+    vals.extend([u64::MAX, u64::MAX - 1, u64::MAX / 2, 1u64 << 63]);
+    for n in vals {
+        for (name, got, want) in [("HumanBytes", HumanBytes(n).to_string(), model(n, 1024.0, &bin)), ("BinaryBytes", BinaryBytes(n).to_string(), model(n, 1024.0, &bin)),
+                                  ("DecimalBytes", DecimalBytes(n).to_string(), model(n, 1000.0, &dec))] {
+            tried += 1;
+            if got != want {
+                return format!("{{\"found\": true, \"clause\": \"C15 byte formatters: plain bytes below the family's own threshold (1024 binary / 1000 decimal), two decimals and the family's prefix above\", \"input\": {{\"formatter\": \"{}\", \"bytes\": \"{}\", \"expected\": {}, \"got\": {}}}, \"rerun\": \"replay byte_formatters\"}}",
+                    name, n, crate::js(&want), crate::js(&got));
+            }
+        }
+    }
+    format!("{{\"found\": false, \"tried\": {}}}", tried)
+}
+
+/// C11: {elapsed} / {eta} / {duration} (and the _precise forms) equal the formatted getters at the same instant, also
+/// for an unknown length, a finished bar and a bar that has been running for hours (with_elapsed).
+pub fn time_keys(_args: &[String]) -> String {
+    use indicatif::{FormattedDuration, HumanDuration, InMemoryTerm, ProgressBar, ProgressDrawTarget};
+    use std::time::Duration;
+    std::panic::set_hook(Box::new(|_| {}));
+    let mut tried = 0u64;
+    for (len, pos) in [(Some(10u64), 3u64), (None, 7), (Some(10), 10), (Some(0), 0)] {
+        for finished in [false, true] {
+            for secs in [0u64, 59, 7200, 90061] {
+                let mut bad = None;
+                for _attempt in 0..4 {
+                    let term = InMemoryTerm::new(4, 120);
+                    let pb = ProgressBar::with_draw_target(len, ProgressDrawTarget::term_like(Box::new(term.clone()))).with_elapsed(Duration::from_secs(secs));
+                    pb.set_style(ProgressStyle::with_template("{elapsed}|{elapsed_precise}|{eta}|{eta_precise}|{duration}|{duration_precise}").unwrap());
+                    pb.set_position(pos);
+                    if finished { pb.abandon(); } else { pb.tick(); }
+                    let got = term.contents();
+                    let want = format!("{:#}|{}|{:#}|{}|{:#}|{}", HumanDuration(pb.elapsed()), FormattedDuration(pb.elapsed()), HumanDuration(pb.eta()), FormattedDuration(pb.eta()),
+                        HumanDuration(pb.duration()), FormattedDuration(pb.duration()));
+                    tried += 1;
+                    if got == want { bad = None; break; }
+                    bad = Some((want, got));   // a second boundary between the frame and the getters: retried
+                }
+                if let Some((want, got)) = bad {
+                    return format!("{{\"found\": true, \"clause\": \"C11 the elapsed / eta / duration keys equal the formatted getter values at the same instant\", \"input\": {{\"length\": {:?}, \"position\": {}, \"finished\": {}, \"with_elapsed_secs\": {}, \"expected\": {}, \"screen\": {}}}, \"rerun\": \"replay time_keys\"}}",
+                        len, pos, finished, secs, crate::js(&want), crate::js(&got));
+                }
+            }
+        }
+    }
+    format!("{{\"found\": false, \"tried\": {}}}", tried)
+}
+
+/// C02: a bar handed to a second MultiProgress leaves the first one (its rows disappear there with the next draw) and
+/// shows up in the second; a bar that is added again to the MultiProgress it is a member of keeps its place.
+pub fn multi_move(_args: &[String]) -> String {
+    use indicatif::{InMemoryTerm, MultiProgress, ProgressBar, ProgressDrawTarget};
+    std::panic::set_hook(Box::new(|_| {}));
+    let mut tried = 0u64;
+    let mkbar = |m: &str| { let pb = ProgressBar::new(10); pb.set_style(ProgressStyle::with_template("{msg} {pos}").unwrap()); pb.set_message(m.to_string()); pb };
+    for drawn in [false, true] {
+        for how in 0..3 {
+            let t1 = InMemoryTerm::new(8, 40);
+            let t2 = InMemoryTerm::new(8, 40);
+            let mp1 = MultiProgress::with_draw_target(ProgressDrawTarget::term_like(Box::new(t1.clone())));
+            let mp2 = MultiProgress::with_draw_target(ProgressDrawTarget::term_like(Box::new(t2.clone())));
+            let a = mp1.add(mkbar("a"));
+            let b = mp1.add(mkbar("b"));
+            let c = mp2.add(mkbar("c"));
+            let mut hist = vec!["mp1: bars a, b; mp2: bar c".to_string()];
+            if drawn { a.tick(); b.tick(); c.tick(); hist.push("all ticked".into()); }
+            let b = match how { 0 => mp2.add(b), 1 => mp2.insert(0, b), _ => mp2.insert_after(&c, b) };
+            hist.push(["mp2.add(b)", "mp2.insert(0, b)", "mp2.insert_after(&c, b)"][how].to_string());
+            b.inc(3);
+            a.tick(); b.tick(); c.tick();
+            hist.push("b.inc(3); tick a, b, c".into());
+            tried += 1;
+            let want1 = "a 0";
+            let want2 = if how == 1 { "b 3\nc 0" } else { "c 0\nb 3" };
+            let (g1, g2) = (t1.contents(), t2.contents());
+            if g1 != want1 || g2 != want2 {
+                let h: Vec<&str> = hist.iter().map(String::as_str).collect();
+                return format!("{{\"found\": true, \"clause\": \"C02 a bar moved to another MultiProgress is shown there once, in order, and no longer in the first one\", \"input\": {{\"history\": {}, \"expected\": {}, \"screens\": {}}}, \"rerun\": \"replay multi_move\"}}",
+                    crate::jlist(&h), crate::js(&format!("mp1: {:?} mp2: {:?}", want1, want2)), crate::js(&format!("mp1: {:?} mp2: {:?}", g1, g2)));
+            }
+        }
+    }
+    format!("{{\"found\": false, \"tried\": {}}}", tried)
+}
